@@ -322,7 +322,7 @@ package jmespath
 //@   ensures [cursor] err == nil ==> PI(p) && p.index >= old(p.index)
 //@   ensures {C04,C05} [well-formed-ast] err == nil ==> wfNode(result)
 //@   ensures {C04} [never-an-empty-node] err == nil ==> result.nodeType != ASTEmpty
-//@   ensures {C03,C04} [parses-as-grammar] parsesAs(p, err, result, specLed(p.tokens, old(p.index) - 1, node))
+//@   ensures {C03,C04,C15} [parses-as-grammar] parsesAs(p, err, result, specLed(p.tokens, old(p.index) - 1, node))
 //@   ensures {C17} [error-location] parseErrOK(p, err)
 //@   loop 1 invariant PI(p) && p.index >= old(p.index) && (forall j int :: 0 <= j && j < len(args) ==> wfArg(args[j]))
 //@   loop 1 invariant {C03,C04} [args-continuation] (p.index == old(p.index) && same(args, nilNodes())) || (p.tokens[p.index].tokenType != tRparen && p.tokens[old(p.index)].tokenType != tRparen && same(specArgs(p.tokens, p.index, args), specArgs(p.tokens, old(p.index), nilNodes())))
@@ -887,6 +887,16 @@ package jmespath
 //@   requires pureTree(n) && 0 <= i && i < nkids(n)
 //@   ensures pureTree(kid(n, i))
 //@   trigger pureTree(kid(n, i))
+
+//@ lemma a-pipe-token-builds-a-pipe-of-its-operands
+//@   props C15,C03
+//@   var toks Sl_S_token
+//@   var i int
+//@   var left Node
+//@   requires specTokType(toks, i) == tPipe && 0 <= i && i < len(toks)
+//@   ensures thd(specLed(toks, i, left)) <==> thd(specExpr(toks, i + 1, 1))
+//@   ensures thd(specLed(toks, i, left)) ==> fst(specLed(toks, i, left)).nodeType == ASTPipe && nkids(fst(specLed(toks, i, left))) == 2 && same(kid(fst(specLed(toks, i, left)), 0), left) && same(kid(fst(specLed(toks, i, left)), 1), fst(specExpr(toks, i + 1, 1))) && snd(specLed(toks, i, left)) == snd(specExpr(toks, i + 1, 1))
+//@   checkonly
 
 //@ lemma binding-powers-are-the-specified-precedences
 //@   props C03,C04,C02,C15
